@@ -192,10 +192,22 @@ def thread_jumps(d):
     blocks = d["blocks"]
     changed = False
     preds = {}
+
+    def through_empty(x, limit=6):
+        """follow a chain of statement-free goto blocks"""
+        while limit > 0 and not blocks[x]["stmts"] and blocks[x]["term"]["k"] == "goto" and \
+                blocks[x]["term"]["target"] != x:
+            x = blocks[x]["term"]["target"]
+            limit -= 1
+        return x
     for i, b in enumerate(blocks):
         t = b["term"]
         if t["k"] == "goto":
-            preds.setdefault(t["target"], []).append(i)
+            tgt = t["target"]
+            preds.setdefault(tgt, []).append(i)
+            end = through_empty(tgt)
+            if end != tgt:
+                preds.setdefault(end, []).append(i)
     new_blocks = None
     for j, J in enumerate(blocks):
         t = J["term"]
